@@ -182,6 +182,11 @@ def run_stage(pid, stage, tier, seed, logdir):
             inp = Path(str(pp) + ".input")
             rec = {"shard": shard, "case": case, "rc": rc, "stderr": stderr, "variant": variant, "worker": worker,
                    "input_hex": inp.read_bytes().hex() if inp.exists() and inp.stat().st_size < (1 << 20) else None}
+            if rc == 3 and case is not None and any(c.get("hang") for c in crashes):
+                # one hang of this stage is already confirmed (that decides the verdict): do not spend
+                # 10x budgets on every further slow case, and stop feeding this shard
+                slow.append({"case": case, "seconds": None, "unconfirmed": True})
+                continue
             if rc == 3 and case is not None:
                 # per-case watchdog: re-run alone with a 10x budget before calling it a hang
                 cmd = prefix + [worker, "--seed", str(seed), "--tier", tier, "--case", str(case), "--hang-budget", str(hang_budget * 10)] + extra
